@@ -43,12 +43,39 @@ def param_width(mod, fn, idx):
 
 # ---- witness search over closed-form terms ---------------------------------
 
+# path condition of the world currently being judged (set by with_world)
+PC = B.PathCond()
+
+
+class with_world(object):
+    """with FC.with_world(decisions): ... - judge one world under its path condition"""
+
+    def __init__(self, decisions):
+        self.pc = B.PathCond(decisions)
+
+    def __enter__(self):
+        global PC
+        self.old = PC
+        PC = self.pc
+        return self.pc
+
+    def __exit__(self, *a):
+        global PC
+        PC = self.old
+
+
 def find_witness(t_actual, t_expected, seed=0):
-    """An assignment of the variables under which the two T-free terms differ,
-    or None.  This evaluates terms (closed forms), not program code."""
+    """An assignment of the variables, consistent with the current path
+    condition, under which the two T-free terms differ - or None.  This
+    evaluates terms (closed forms), not program code."""
+    pc = PC
+    a2, e2 = pc.apply(t_actual), pc.apply(t_expected)
+    if a2 == e2:
+        return None
     vs = set()
-    B.term_vars(t_actual, vs)
-    B.term_vars(t_expected, vs)
+    B.term_vars(a2, vs)
+    B.term_vars(e2, vs)
+    pc.vars(vs)
     base = sorted((v for v in vs if v[0] != 'C'), key=repr)
     cands = [{}, {v: 1 for v in base}]
     for v in base:
@@ -58,15 +85,56 @@ def find_witness(t_actual, t_expected, seed=0):
         e[v] = 0
         cands.append(e)
     rnd = random.Random(seed)
-    for _ in range(64):
+    for _ in range(96):
         cands.append({v: rnd.getrandbits(1) for v in base})
     for env in cands:
+        env = pc.complete(env)
         try:
+            if not pc.holds(env):
+                continue
             if B.eval_term(t_actual, env) != B.eval_term(t_expected, env):
                 return env
         except ValueError:
             return None
     return None
+
+
+def ok_worlds(ws, cap=32):
+    """-> (list of feasible ok worlds, error text or None)"""
+    if not ws:
+        return [], 'no world'
+    if len(ws) > cap:
+        return [], 'control depends on data: more than %d worlds' % cap
+    out = []
+    for w in ws:
+        dec = w.decisions if hasattr(w, 'decisions') else w['decisions']
+        if B.PathCond(dec).infeasible:
+            continue
+        st = w.status if hasattr(w, 'status') else w['status']
+        if st != 'ok':
+            return [], str(w.reason if hasattr(w, 'reason') else w['reason'])
+        out.append(w)
+    if not out:
+        return [], 'every world is infeasible'
+    return out, None
+
+
+def world_pairs(wa, wb):
+    """feasible combinations of the worlds of two runs over the same symbolic inputs"""
+    for a in wa:
+        for b in wb:
+            dec = list(a.decisions) + list(b.decisions)
+            if B.PathCond(dec).infeasible:
+                continue
+            yield a, b, dec
+
+
+def same_under_pc(a, e):
+    if a == e:
+        return True
+    if PC.trivial():
+        return False
+    return PC.apply(a) == PC.apply(e)
 
 
 def fmt_env(env):
@@ -85,6 +153,8 @@ def compare_vec(actual, expected, w):
     unknown = None
     for i in range(w):
         if a[i] == e[i]:
+            continue
+        if not B.is_unknown(a[i]) and same_under_pc(a[i], e[i]):
             continue
         if B.is_unknown(a[i]):
             if unknown is None:
@@ -237,18 +307,23 @@ def judge_getter(ctx, f, fld, path):
     issues = []
     where = fnloc(ctx, fname)
     out = {'fn': fname, 'R': R, 'issues': issues, 'path': path, 'format': fmt, 'field': fld['name'],
-           'reads': [], 'ret': None, 'steps': sum(r['steps'] for r in recs)}
-    if len(recs) != 1:
-        issues.append(('C01', 'undecided', base, '%s: analysis forked into %d worlds for a constant field read (%s)'
-                       % (where, len(recs), '; '.join(str(r['reason']) for r in recs if r['reason']))))
+           'reads': [], 'ret': None, 'steps': sum(r['steps'] for r in recs), 'worlds': len(recs)}
+    if not recs or len(recs) > 8:
+        issues.append(('C01', 'undecided', base, '%s: analysis produced %d worlds' % (where, len(recs))))
         return out
-    rec = recs[0]
+    for rec in recs:
+        with with_world(rec['decisions']):
+            _judge_getter_world(ctx, f, fld, fmt, base, where, R, rec, issues, out)
+    return out
+
+
+def _judge_getter_world(ctx, f, fld, fmt, base, where, R, rec, issues, out):
     if rec['status'] != 'ok':
         issues.append(('C01', 'undecided', base, '%s: %s' % (where, rec['reason'])))
         return out
     w = fld['width']
     p = pdu_rec(rec)
-    out['reads'] = p['reads']
+    out['reads'] = sorted(set(out['reads']) | set(p['reads']))
     out['ret'] = rec['ret']
     if R is None:
         issues.append(('C01', 'undecided', base, '%s: return type is not an integer' % where))
@@ -306,21 +381,26 @@ def judge_setter(ctx, f, fld, path):
     where = fnloc(ctx, fname)
     out = {'fn': fname, 'P': P, 'issues': issues, 'path': path, 'format': fmt, 'field': fld['name'],
            'writes': [], 'changed_bits': None, 'steps': sum(r['steps'] for r in recs)}
-    if len(recs) != 1:
-        issues.append(('C02', 'undecided', base, '%s: analysis forked into %d worlds (%s)'
-                       % (where, len(recs), '; '.join(str(r['reason']) for r in recs if r['reason']))))
+    if not recs or len(recs) > 8:
+        issues.append(('C02', 'undecided', base, '%s: analysis produced %d worlds' % (where, len(recs))))
         return out
-    rec = recs[0]
+    if P < fld['width']:
+        issues.append(('C02', 'violation', base + ':param-narrow',
+                       '%s: value parameter has %d bits but field %s.%s has %d: value 2^%d cannot be stored'
+                       % (where, P, fmt, fld['name'], fld['width'], P)))
+    for rec in recs:
+        with with_world(rec['decisions']):
+            _judge_setter_world(ctx, f, fld, fmt, base, where, P, rec, issues, out)
+    return out
+
+
+def _judge_setter_world(ctx, f, fld, fmt, base, where, P, rec, issues, out):
     if rec['status'] != 'ok':
         issues.append(('C02', 'undecided', base, '%s: %s' % (where, rec['reason'])))
         return out
     w = fld['width']
     p = pdu_rec(rec)
-    out['writes'] = p['writes']
-    if P < w:
-        issues.append(('C02', 'violation', base + ':param-narrow',
-                       '%s: value parameter has %d bits but field %s.%s has %d: value 2^%d cannot be stored'
-                       % (where, P, fmt, fld['name'], w, P)))
+    out['writes'] = sorted(set(out['writes']) | set(p['writes']))
     exp = expected_set_mem(fld, P, f['header_len'], p['writes'])
     changed = []
     bad = None
@@ -342,6 +422,8 @@ def judge_setter(ctx, f, fld, path):
                 if unk is None:
                     unk = (o, b)
                 continue
+            if same_under_pc(a, e):
+                continue
             wit = find_witness(a, e)
             if wit is None:
                 if unk is None:
@@ -349,7 +431,12 @@ def judge_setter(ctx, f, fld, path):
                 continue
             if bad is None:
                 bad = (o, b, a, e, wit)
-    out['changed_bits'] = sorted(changed)
+    # in a world that skipped the store because the field already held the value, the footprint is
+    # the field itself
+    if PC.trivial() or out['changed_bits'] is None:
+        out['changed_bits'] = sorted(set(changed) | set(out['changed_bits'] or []))
+    else:
+        out['changed_bits'] = sorted(set(changed) | set(out['changed_bits']))
     if bad:
         o, b, a, e, wit = bad
         inside = (o * 8 + 7 - b) in field_bits(fld)
@@ -360,8 +447,6 @@ def judge_setter(ctx, f, fld, path):
                           fmt_env(wit))))
     elif unk:
         issues.append(('C02', 'undecided', base, '%s: octet %d bit %d could not be determined' % ((where,) + unk)))
-    if rec['ret'] is not None and not (isinstance(rec['ret'], int) and False):
-        pass
     fe = foreign_effects(rec)
     if fe:
         issues.append(('C16', 'violation', base + ':foreign',
@@ -439,12 +524,21 @@ def judge_init(ctx, f, fname, extra_args=None, image=None, prop='C04', legacy=Fa
     args = lambda: [Ptr(PDU, 0)] + (extra_args() if extra_args else [])
     recs = run_call(ctx, fname, args, region_len(ctx, f))
     out['steps'] = sum(r['steps'] for r in recs)
-    if len(recs) != 1 or recs[0]['status'] != 'ok':
-        issues.append((prop, 'undecided', base, '%s: %s' % (where, '; '.join(str(r['reason']) for r in recs))))
+    if not recs or len(recs) > 8:
+        issues.append((prop, 'undecided', base, '%s: analysis produced %d worlds' % (where, len(recs))))
         return out
-    rec = recs[0]
-    p = pdu_rec(rec)
     img = image if image is not None else expected_image(f)
+    for rec in recs:
+        with with_world(rec['decisions']):
+            _judge_init_world(ctx, f, fmt, base, where, prop, hl, img, rec, issues, out)
+    return out
+
+
+def _judge_init_world(ctx, f, fmt, base, where, prop, hl, img, rec, issues, out):
+    if rec['status'] != 'ok':
+        issues.append((prop, 'undecided', base, '%s: %s' % (where, rec['reason'])))
+        return out
+    p = pdu_rec(rec)
     out['image'] = []
     for o in range(hl):
         act = p['mem'].get(o)
